@@ -260,7 +260,7 @@ def handle (args : List String) : String :=
     let fixF2 := flags.getD 5 '1' == '1'
     let fixF5 := flags.getD 6 '1' == '1'
     let fixF5b := flags.getD 7 '1' == '1'
-    let fix7c := flags.getD 8 '0' == '1'
+    let fix7c := flags.getD 8 '1' == '1'
     match root.toNat?, (do
         let p ← pGPat
         let g ← pGraph
